@@ -423,5 +423,5 @@ func c09Gen(t *rapid.T) c09Case {
 func init() {
 	vfRapid("C09/verdict-is-a-function-of-needed-state",
 		"non-trivial = the history checked through the shared checker contains a membership event under a restricted / knock_restricted join rule, or the create / power-levels / join-rules / member state changes between two checks, and the final verdict is not decided by 'sender not in room'. distinct = distinct Case JSON",
-		2000, 60000, 16, c09Gen, c09Check)
+		2000, 200000, 16, c09Gen, c09Check)
 }
